@@ -97,6 +97,20 @@ static std::vector<Scenario> scenarios(bool quick)
     c.udp_max_queries = 2;
     cfgs.push_back(c);
   }
+  if (!quick) {
+    Cfg c          = base("tcp-tfo-pendingwrite", ARES_FLAG_USEVC | ARES_FLAG_STAYOPEN);
+    c.tfo          = true;
+    c.pending_write_cb = true;
+    cfgs.push_back(c);
+    Cfg d          = base("legacy-fds-stayopen-bf", ARES_FLAG_STAYOPEN | ARES_FLAG_EDNS);
+    d.sock_state_cb = false;
+    d.lookups       = "bf";
+    d.local_bind    = true;
+    cfgs.push_back(d);
+    Cfg e          = base("tcp-inprogress", ARES_FLAG_USEVC | ARES_FLAG_EDNS);
+    e.connect_mode = 1;
+    cfgs.push_back(e);
+  }
   for (auto &c : cfgs) {
     // initialisation alone (every option group of the configuration)
     v.push_back({ "init/" + c.name, c, {} });
@@ -120,6 +134,33 @@ static std::vector<Scenario> scenarios(bool quick)
     v.push_back({ "dup/" + c.name, c, { S_k(3) } });
     v.push_back({ "save-options/" + c.name, c, { S_k(4) } });
     v.push_back({ "two-queries-one-socket/" + c.name, c, { S_req(2), S_req(13), S_auto(RK_DATA) } });
+    if (!quick || c.name == "udp-edns") {
+      Step one_nx = S_k(5);
+      one_nx.a    = RK_NXDOMAIN;
+      Step one_nd = S_k(5);
+      one_nd.a    = RK_NODATA;
+      v.push_back({ "search-second-candidate/" + c.name, c, { S_req(4), one_nx, S_auto(RK_DATA) } });
+      v.push_back({ "gai-nodata-then-data/" + c.name, c, { S_req(6), one_nd, S_auto(RK_DATA) } });
+      v.push_back({ "gai-cname/" + c.name, c, { S_req(6), S_auto(RK_CNAME_DATA) } });
+      v.push_back({ "gai-multi/" + c.name, c, { S_req(6), S_auto(RK_DATA_MULTI) } });
+      v.push_back({ "gai-mixed/" + c.name, c, { S_req(6), S_auto(RK_DATA_MIXED) } });
+      v.push_back({ "ghbn-multi/" + c.name, c, { S_req(7), S_auto(RK_DATA_MULTI) } });
+      v.push_back({ "cookie-valid-twice/" + c.name, c, { S_req(2), S_auto(RK_CK_VALID), S_req(13), S_auto(RK_CK_VALID2) } });
+      v.push_back({ "badcookie/" + c.name, c, { S_req(2), S_k(5), S_auto(RK_DATA) } });
+      v.back().steps[1].a = RK_BADCOOKIE;
+      v.push_back({ "formerr-downgrade/" + c.name, c, { S_req(2), S_k(5), S_auto(RK_DATA) } });
+      v.back().steps[1].a = RK_FORMERR_NOOPT;
+      v.push_back({ "malformed-reply/" + c.name, c, { S_req(2), S_k(5), S_auto(RK_DATA) } });
+      v.back().steps[1].a = RK_MALFORMED;
+      v.push_back({ "refused-then-timeout/" + c.name, c, { S_req(2), S_k(5), S_ev(mk(EV_TIMER)) } });
+      v.back().steps[1].a = RK_REFUSED;
+      v.push_back({ "get-servers-csv/" + c.name, c, { S_k(6) } });
+      v.push_back({ "set-sortlist/" + c.name, c, { S_k(7), S_req(6), S_auto(RK_DATA_MULTI) } });
+      v.push_back({ "set-servers-add/" + c.name, c, { S_ev(mk(EV_SETSERVERS, 4)), S_req(2), S_auto(RK_DATA) } });
+      v.push_back({ "fault-send-refused/" + c.name, c, { S_ev(mk(EV_FAULT, FS_SEND_REFUSED)), S_req(2), S_auto(RK_DATA) } });
+      v.push_back({ "fault-recv-reset/" + c.name, c, { S_req(2), S_ev(mk(EV_FAULT, FS_RECV_RESET)), S_k(5), S_auto(RK_DATA) } });
+      v.back().steps[2].a = RK_DATA;
+    }
   }
   return v;
 }
@@ -159,12 +200,41 @@ static RunResult run_scenario(const Scenario &sc, const std::vector<ReqSpec> &re
       case 1: w.issue(st.a, false); break;
       case 2:
         for (int round = 0; round < 12; round++) {
+          if (w.pending_write_notified && w.ch) {
+            w.pending_write_notified = false;
+            w.in_lib                 = true;
+            ares_process_pending_write(w.ch);
+            w.in_lib = false;
+          }
+          for (auto &s : w.socks)
+            if (s->open && s->connect_pending) {
+              s->connect_pending = false;
+              s->connected       = true;
+            }
+          for (int k = 0; k < 4 && !w.ready_fds(false).empty(); k++) w.do_io(false);
           std::vector<int> a = w.answerable_txs();
           if (a.empty()) break;
           for (int t : a) w.apply(mk(EV_REPLY, t, st.a));
           for (int k = 0; k < 4 && !w.ready_fds(false).empty(); k++) w.do_io(false);
         }
         break;
+      case 5: { // one round: answer what is outstanding now with kind a
+        std::vector<int> a = w.answerable_txs();
+        for (int t : a) w.apply(mk(EV_REPLY, t, st.a));
+        for (int k = 0; k < 4 && !w.ready_fds(false).empty(); k++) w.do_io(false);
+        break;
+      }
+      case 6: {
+        char *csv = ares_get_servers_csv(w.ch);
+        w.log(std::string("get_servers_csv -> ") + (csv ? csv : "NULL"));
+        ares_free_string(csv);
+        break;
+      }
+      case 7: {
+        int rc = ares_set_sortlist(w.ch, "10.9.0.0/255.255.0.0 10.10.0.0/16 fd00::/8");
+        w.log("set_sortlist -> " + std::to_string(rc));
+        break;
+      }
       case 3: {
         ares_channel_t *d = nullptr;
         w.in_lib          = true;
@@ -197,9 +267,22 @@ static RunResult run_scenario(const Scenario &sc, const std::vector<ReqSpec> &re
       if (st.k == 0 && st.ev.k == EV_SETSERVERS && st.ev.a == 1) nservers_left = 0;
     size_t tx0 = w.txs.size();
     int    tok = w.issue(11, false);
-    for (int round = 0; round < 6 && tok >= 0 && w.toks[(size_t)tok].count == 0; round++) {
+    for (int round = 0; round < 12 && tok >= 0 && w.ch && w.toks[(size_t)tok].count == 0; round++) {
+      if (w.pending_write_notified) {
+        w.pending_write_notified = false;
+        w.in_lib                 = true;
+        ares_process_pending_write(w.ch);
+        w.in_lib = false;
+      }
+      for (auto &s : w.socks)
+        if (s->open && s->connect_pending) {
+          s->connect_pending = false;
+          s->connected       = true;
+        }
+      for (int k = 0; k < 4 && !w.ready_fds(false).empty(); k++) w.do_io(false);
+      // a cookie-capable answer: valid for servers that proved cookie support, plain otherwise
       for (int t : w.answerable_txs())
-        if (t >= (int)tx0) w.apply(mk(EV_REPLY, t, RK_DATA));
+        if (t >= (int)tx0) w.apply(mk(EV_REPLY, t, RK_CK_VALID));
       for (int k = 0; k < 4 && !w.ready_fds(false).empty(); k++) w.do_io(false);
     }
     if (tok >= 0 && nservers_left && (w.toks[(size_t)tok].count != 1 || w.toks[(size_t)tok].status != ARES_SUCCESS))
